@@ -37,6 +37,7 @@ ContextKeys(s) == CASE s = "Tabulation" -> {"target", "nrho"}     \* deliberatel
                     [] s = "Table-Form:tf" -> {"x"}
                     [] OTHER -> {}
 OwnKeys(s) == {x.key : x \in {y \in Pos : y.sec = s}} \cup ContextKeys(s)
+\* the templated file's helper options are options of their section too
 
 \* naming schemes for the variables that replace lifted literals
 \*  plain   : v1 .. v9
@@ -44,7 +45,10 @@ OwnKeys(s) == {x.key : x \in {y \in Pos : y.sec = s}} \cup ContextKeys(s)
 \*  shared  : one variable per distinct literal
 \*  secref  : no variable: ${SECTION:KEY} of another position that holds the same literal (when there is one)
 \*  chained : v1 .. v9, each defined as ${w1} .. ${w9}, which hold the literals (a variable defined through a variable)
-Schemes == {"plain", "keylike", "shared", "secref", "chained"}
+\*  ownkey  : a lifted [Tabulation] position p refers to a helper option h<p> of its OWN section, which holds the literal, while
+\*            [Variables] defines a decoy h<p> with another value (${name} means the own section first); the other lifted
+\*            positions refer to such a position by ${SECTION:KEY} where they can, else to a plain variable
+Schemes == {"plain", "keylike", "shared", "secref", "chained", "ownkey"}
 KeyLike(p) == CASE p = 1 -> "A-B" [] p = 2 -> "x" [] p = 3 -> "nr" [] p = 4 -> "cutoff" [] p = 5 -> "target"
                 [] p = 6 -> "y" [] p = 7 -> "dr" [] p = 8 -> "drho" [] p = 9 -> "interpolation"
 Partner(p) == \* another position with the same literal in a different section (for ${SECTION:KEY})
@@ -55,6 +59,7 @@ VarName(scheme, p) == CASE scheme = "plain" -> "v" \o ToString(p)
                         [] scheme = "shared" -> At(p).lit
                         [] scheme = "secref" -> "v" \o ToString(p)
                         [] scheme = "chained" -> "v" \o ToString(p)
+                        [] scheme = "ownkey" -> "v" \o ToString(p)
 \* unreferenced variables: names chosen to collide with optional keys the sections do NOT define
 ExtraVars == {"cutoff", "dr", "target2", "xy", "Al.charge", "B-A", "g(r)", "Al-Cu", "Al"}
 
@@ -68,8 +73,12 @@ vars == <<P, scheme, extra, todo, seen, pc>>
 -----------------------------------------------------------------------------
 (* the templated file *)
 \* value of a position in the templated file: a literal, ${var} or ${SEC:KEY}
-UsesSecRef(p) == scheme = "secref" /\ Partner(p) # 0 /\ Partner(p) \notin P
+UsesOwnKey(p) == scheme = "ownkey" /\ p \in P /\ At(p).sec = "Tabulation"
+UsesSecRef(p) == \/ scheme = "secref" /\ Partner(p) # 0 /\ Partner(p) \notin P
+                 \/ scheme = "ownkey" /\ ~UsesOwnKey(p) /\ Partner(p) # 0 /\ UsesOwnKey(Partner(p))     \* reads the option through ${SECTION:KEY}
+HelperKey(p) == "h" \o ToString(p)
 Token(p) == IF p \notin P THEN [t |-> "lit", v |-> At(p).lit]
+            ELSE IF UsesOwnKey(p) THEN [t |-> "own", n |-> HelperKey(p), v |-> At(p).lit]
             ELSE IF UsesSecRef(p) THEN [t |-> "secref", s |-> At(Partner(p)).sec, k |-> At(Partner(p)).key]
             ELSE [t |-> "var", n |-> VarName(scheme, p)]
 \* [Variables]: the variables of the lifted positions, and the unreferenced ones
@@ -77,7 +86,8 @@ Token(p) == IF p \notin P THEN [t |-> "lit", v |-> At(p).lit]
 LiftedVars == IF scheme = "chained"
               THEN {[n |-> VarName(scheme, p), v |-> "", ref |-> "w" \o ToString(p)] : p \in P}
                    \cup {[n |-> "w" \o ToString(p), v |-> At(p).lit, ref |-> ""] : p \in P}
-              ELSE {[n |-> VarName(scheme, p), v |-> At(p).lit, ref |-> ""] : p \in {q \in P : ~UsesSecRef(q)}}
+              ELSE {[n |-> VarName(scheme, p), v |-> At(p).lit, ref |-> ""] : p \in {q \in P : ~UsesSecRef(q) /\ ~UsesOwnKey(q)}}
+                   \cup {[n |-> HelperKey(p), v |-> "Lextra", ref |-> ""] : p \in {q \in P : UsesOwnKey(q)}}        \* the decoys
 Variables == LiftedVars \cup {[n |-> e, v |-> "Lextra", ref |-> ""] : e \in extra}
 RECURSIVE VarValue(_)
 VarValue(n) == LET x == CHOOSE y \in Variables : y.n = n IN IF x.ref = "" THEN x.v ELSE VarValue(x.ref)
@@ -89,11 +99,14 @@ BaseView(s) == [k \in {x.key : x \in {y \in Pos : y.sec = s}} |-> (CHOOSE x \in 
 
 (* the implementation: reading one section through configparser *)
 \* ${name}: own section first, then the variables; ${sec:key}: that section (then the variables)
+RECURSIVE ResolveTok(_)
 ResolveTok(tok) == CASE tok.t = "lit" -> tok.v
                      [] tok.t = "var" -> VarValue(tok.n)
-                     [] tok.t = "secref" -> Token((CHOOSE x \in Pos : x.sec = tok.s /\ x.key = tok.k).p).v
+                     [] tok.t = "own" -> tok.v                  \* the helper option of the own section, not the variable of that name
+                     [] tok.t = "secref" -> ResolveTok(Token((CHOOSE x \in Pos : x.sec = tok.s /\ x.key = tok.k).p))
 \* the keys the consumer iterates over / can look up in section s
-VisibleKeys(s) == IF DefaultsLeak THEN OwnKeys(s) \cup {x.n : x \in Variables} ELSE OwnKeys(s)
+Helpers(s) == {HelperKey(p) : p \in {q \in PosIds : UsesOwnKey(q) /\ At(q).sec = s}}
+VisibleKeys(s) == IF DefaultsLeak THEN OwnKeys(s) \cup Helpers(s) \cup {x.n : x \in Variables} ELSE OwnKeys(s) \cup Helpers(s)
 ImplView(s) == [k \in {x.key : x \in {y \in Pos : y.sec = s}} |-> ResolveTok(Token((CHOOSE x \in Pos : x.sec = s /\ x.key = k).p))]
 
 Init == /\ P \in {Q \in SUBSET PosIds : Cardinality(Q) <= MaxLift}
@@ -115,7 +128,7 @@ Spec == Init /\ [][Next]_vars
 -----------------------------------------------------------------------------
 InterpolationIsSubstitution == \A s \in DOMAIN seen : seen[s].view = BaseView(s)
 \* defining variables does not give any section options it does not have in the file
-VariablesInert == \A s \in DOMAIN seen : seen[s].keys = OwnKeys(s)
+VariablesInert == \A s \in DOMAIN seen : seen[s].keys = OwnKeys(s) \cup Helpers(s)
 
 -----------------------------------------------------------------------------
 Case(Q, sc, E) == [P |-> SetToSeq(Q), scheme |-> sc, extra |-> SetToSeq(E)]
